@@ -39,8 +39,9 @@ def same_line_cases(r, n):
         if len(lines) < 3:
             k += 1
             continue
-        mode = (k // 3) % 5
-        idxs = {0: [len(lines) // 2], 1: [0], 2: [len(lines) - 1], 3: [1, 2], 4: [len(lines) // 2]}[mode]
+        mode = (k // 3) % 6
+        idxs = {0: [len(lines) // 2], 1: [0], 2: [len(lines) - 1], 3: [1, 2], 4: [len(lines) // 2],
+                5: [0, len(lines) - 1] if len(lines) >= 7 else [0]}[mode]      # two separate conflict hunks
         local, remote = copy.deepcopy(base), copy.deepcopy(base)
         ll, rl = list(lines), list(lines)
         lvars, rvars = [], []
